@@ -71,7 +71,8 @@ def absorb(v, res, rule, level_keys=True):
     v.coverage.setdefault("samples", []).extend(res.get("samples") or [])
     v.coverage.setdefault("distribution", {}).update({k: n for k, n in st.items() if k not in ("evaluations", "distinct_nontrivial")})
     for viol in (res.get("violations") or []):
-        v.violation(viol["signature"], viol["what"], viol["replay"])
+        # a broken modelling assumption is a broken correspondence: reported, but not as a concrete failing input
+        v.violation(viol["signature"], viol["what"], viol["replay"], no_input=(":model-assumption:" in viol["signature"]))
 
 
 def node_harness(v, pid, cmd, tier, seed, rule, timeout=3000):
